@@ -87,7 +87,7 @@ class FS:
             if c.interp.truth(str_eq(e.path, p)):
                 return e
         k = len(self.entries)
-        ex = c.bool(f"fs_exists{k}")
+        ex = c.bool(f"fs_exists{k}") if getattr(self, "unseen_paths_absent", False) is False else False
         e = FSEntry(p, ex, None)
         self.entries.append(e)
         return e
@@ -340,12 +340,28 @@ def path_method(interp, p, name, args, kwargs):
         return fs.entry(p).exists
     if name == "open":
         return fs_open(p, *args, **kwargs)
+    if name in ("write_bytes", "read_bytes"):
+        # Path.write_bytes(b) == open('wb') + write + close; Path.read_bytes() == open('rb') + read + close
+        if name == "write_bytes":
+            w = fs_open(p, "wb")
+            data = as_sbytes(args[0])
+            w.write(data)
+            w.__exit__(None, None, None)
+            gz = getattr(data, "gzip_stream_of", None)
+            if gz is not None:                      # the bytes are a complete gzip stream (gzip.compress)
+                w.e.content = GzBytes(gz, True)
+            return data.len
+        r = fs_open(p, "rb")
+        return r.read()
     if name == "mkdir":
         fs.op("mkdir", p)
         return None
     if name == "unlink":
         fs.op("unlink", p)
         e = fs.entry(p)
+        if not ctx().interp.truth(e.exists):
+            raise RaiseSig(FileNotFoundError(2, "No such file or directory"))
+        e.unlinked = True                 # (e.initial stays as it was: 'deleted while never written' is observable)
         e.exists = False
         return None
     if name in PURE_PATH_METHODS:
@@ -354,6 +370,17 @@ def path_method(interp, p, name, args, kwargs):
         except Exception as ex:
             raise RaiseSig(ex)
     raise Unsupported(f"pathlib method {name} is not modelled (it would touch the real file system)")
+
+
+@model(_gzip.compress)
+def m_gzip_compress(interp, data, compresslevel=9, **kw):
+    """gzip.compress(b): a complete gzip stream of b (opaque bytes that remember their payload)"""
+    c = ctx()
+    c.trust("gzip.compress(b): a complete gzip stream whose decompression is b")
+    out = SBytes.fresh(c, c.fresh_name("gzip_stream"), inp=False)
+    c.assume(out.len >= 18)
+    out.gzip_stream_of = as_sbytes(data)
+    return out
 
 
 # --------------------------------------------------------------------------- HTTP (requests) model
